@@ -111,6 +111,15 @@ class ExprGen(object):
             def side():
                 return self.amp(d - 1) if r.random() < 0.7 else ('str', r.choice(TEXTS))
             return ('cmp', op, side(), side())
+        if r.random() < 0.08:
+            # whole numbers beyond 2**53, one apart: exact as integers, indistinguishable as doubles
+            base = r.choice([2 ** 53, 2 ** 53 + 2, 10 ** 17, 3 ** 35, 2 ** 64])
+
+            def big():
+                self.leaves += 2
+                j = r.choice([0, 1, -1, 2, 3])
+                return ('int', base + j) if r.random() < 0.5 else ('bin', r.choice('+-'), ('int', base), ('int', abs(j) + r.choice([0, 1])))
+            return ('cmp', op, big(), big())
         return ('cmp', op, self.arith_nocmp(d - 1), self.arith_nocmp(d - 1))
 
     def arith_nocmp(self, d, ints_only=False):
